@@ -1,0 +1,17 @@
+//go:build verif
+
+package resolver
+
+import shared "github.com/aquilax/hranoprovod-cli/v3"
+
+// VerifResolveInOrder resolves db visiting the given names in the given order
+// (Resolve visits them in map order, which cannot be chosen from outside).
+func VerifResolveInOrder(c Config, db shared.DBNodeMap, order []string) error {
+	heights := make(map[string]int, len(db))
+	for _, name := range order {
+		if _, err := resolveNode(c.MaxDepth, db, heights, name, 0); err != nil {
+			return err
+		}
+	}
+	return nil
+}
